@@ -300,12 +300,7 @@ func (s *scope) Close() error {
 
 	var errs []error
 
-	// Cancel context
-	if s.cancel != nil {
-		s.cancel()
-	}
-
-	// Close all children first
+	// Take the children first
 	verifGate("C_children", s)
 	s.childrenMu.Lock()
 	children := make([]*scope, 0, len(s.children))
@@ -314,6 +309,13 @@ func (s *scope) Close() error {
 	}
 	s.children = nil
 	s.childrenMu.Unlock()
+
+	// Cancel context. This happens after the children have been taken: a child
+	// that its own context watcher closes as a consequence is still waited for
+	// below, and what fails there is still reported by this Close
+	if s.cancel != nil {
+		s.cancel()
+	}
 
 	for _, child := range children {
 		err := child.Close()
